@@ -153,6 +153,9 @@ def run(ctx):
                 kw["r"] = rng.choice([0.5, 1.0, 3.0])
             if method == "logistic" and rng.random() < 0.4:
                 kw["x0"] = rng.choice([0.0, 1.0, 4.0])
+            ignored_x0 = None
+            if method != "logistic" and rng.random() < 0.3:
+                ignored_x0 = rng.choice([0.5, 1.0, 4.0])      # "not supported" for these methods: has no effect
             if rng.random() < 0.3:
                 kw["base"] = rng.choice([2.0, 10.0])
             if cover is not False:
@@ -166,6 +169,15 @@ def run(ctx):
             try:
                 R, r, x0 = squash(X.copy(), return_params=True, **kw)
                 R = np.asarray(R, dtype=float)
+                if ignored_x0 is not None:
+                    R2, r2, x02 = squash(X.copy(), return_params=True, x0=ignored_x0, **kw)
+                    res.hit("squash_x0_given_to_method_without_midpoint")
+                    if not np.array_equal(np.asarray(R2, dtype=float), R, equal_nan=True) or float(x02) != 0.0 or \
+                            not (float(r2) == float(r) or (np.isnan(r2) and np.isnan(r))):
+                        res.violations.append(dict(info, clause="gaussian / exponential squashing have no midpoint: an x0 "
+                                                                "that is passed has no effect (the formula uses and reports 0)",
+                                                   x0=ignored_x0, out=np.asarray(R2, dtype=float).tolist(),
+                                                   without_x0=R.tolist(), reported=[float(r2), float(x02)]))
             except BaseException as ex:
                 if isinstance(ex, (KeyboardInterrupt, SystemExit)):
                     raise
